@@ -563,3 +563,75 @@ def change_prefers_lower_priority_then_older(w: World, age: float):
         check(r is not None, "an eligible pending entry exists: something is handed out")
         if r is not other:
             check(not (k_other < _sort_key(r)), "nothing eligible sorts strictly before the entry handed out")
+
+
+@lemma(props=["C17", "C15", "C18"], configs="none", raises=["Exception"],
+       stubs={"cloudsync.sync.manager:SyncManager._validate_provider_roots": {"results": ["None"], "havoc": False},
+              "cloudsync.sync.state:SyncState.change": {"results": ["None", "entry"], "raises": False, "havoc": False},
+              "cloudsync.sync.manager:SyncManager._sync_one_entry": {"results": ["True", "False"], "havoc": True},
+              "cloudsync.runnable:Runnable.nothing_happened": {"results": ["None"], "raises": False, "havoc": False}})
+def sync_manager_step(w: World):
+    """L17.6 / L15.2: one step of the sync manager: the next entry is asked of the scheduler exactly once, with the
+    manager's aging, and it is the entry that is synced -- choosing and syncing are one critical section under the state
+    lock, which is released afterwards even if the sync raises; with nothing eligible the step sleeps for the aging time
+    instead; the step reports 'nothing happened' exactly when no sync reported progress"""
+    mgr = w.mgr
+    try:
+        mgr.do()
+        raised = False
+    except Exception:
+        raised = True
+    ch = calls("change")
+    so = calls("_sync_one_entry")
+    check(lock_held() == 0, "the state lock is released afterwards")
+    if len(calls("_validate_provider_roots")) == 1 and len(ch) > 0:
+        check(len(ch) == 1 and ch[0].args[0] == mgr.aging and ch[0].held >= 1, "the scheduler is asked once, with the aging, under the lock")
+        if ch[0].result is None:
+            check(len(so) == 0, "nothing eligible: nothing is synced")
+            if not raised:
+                check(len(calls("sleep")) == 1 and calls("sleep")[0].args[0] == mgr.aging, "the step sleeps for the aging time")
+                check(len(calls("nothing_happened")) == 1, "and reports that nothing happened")
+        else:
+            check(len(so) == 1 and so[0].args[0] is ch[0].result and so[0].held >= 1,
+                  "the entry handed out is the one synced, in the same critical section")
+            if not raised:
+                check(len(calls("sleep")) == 0, "no sleep after work")
+                check((len(calls("nothing_happened")) == 1) == (so[0].result is False), "'nothing happened' exactly when the sync reported no progress")
+
+
+@lemma(props=["C05", "C02"], configs="resolver_cases", raises=["Exception"],
+       stubs={"cloudsync.sync.manager:SyncManager._resolve_rename": {"results": ["True", "False"], "havoc": True},
+              "cloudsync.sync.manager:SyncManager._SyncManager__resolver_merge_upload": {"results": ["None"], "havoc": True}})
+def resolve_conflict_applies_the_answer(w: World):
+    """L5.2: applying the resolver's answer.  One side's handle returned: the *other* side is the loser -- with keep it is
+    renamed out of the way (conflict rename), never overwritten; without keep it is overwritten by exactly one upload of
+    the winning content to the loser's own object; the winner's side is never written.  No usable answer (None, exception): the remote
+    version wins and the local one is renamed aside.  (The merged-data answer, which replaces both sides, is generated as a
+    separate case and is not under contract: its path count exceeds the generation budget.)"""
+    mgr = w.mgr
+    e0 = w.entry("e0")
+    e1 = w.entry("e1")
+    assume_indexed(w.state, e0)
+    assume_indexed(w.state, e1)
+    s0 = e0[0]
+    s1 = e1[1]
+    assume(s0.oid is not None and s1.oid is not None)
+    assume(s0.otype == FILE and s1.otype == FILE)
+    oid0 = s0.oid
+    oid1 = s1.oid
+    mgr.resolve_conflict((s0, s1))
+    beh = resolver_behaviour()
+    ws = provider_writes()
+    rn = calls("_resolve_rename")
+    mu = calls("_SyncManager__resolver_merge_upload")
+    check(len(calls("resolve_conflict")) == 1, "the resolver is called exactly once")
+    check(len(mu) == 0, "one side's handle: no merge upload")
+    loser = 1 if beh == "pick0" else 0
+    check(len(ws) + len(rn) == 1, "exactly one action on the loser")
+    for c in ws:
+        check(c.side == loser and c.method == "upload" and c.args[0] == (oid1 if loser == 1 else oid0),
+              "without keep: one upload over the loser's own object")
+    for c in rn:
+        check(c.args[0] is (s1 if loser == 1 else s0), "with keep: the loser is renamed out of the way")
+    if beh != "pick0" and beh != "pick1":
+        check(len(ws) == 0 and len(rn) == 1, "no usable answer: the local version is kept aside, nothing is overwritten")
